@@ -196,6 +196,12 @@ func fmtGraph(n int, adj []uint32) string {
 // buildAndCheck builds the graph over the given vertex labels with golib's API in
 // a seeded insertion order and compares `calls` enumerations with the expected family.
 func buildAndCheck[T comparable](c *ev.Case, labels []T, n int, adj []uint32, want []uint32, calls int, kind string) bool {
+	return buildAndCheckOn[T](c, nil, labels, n, adj, want, calls, kind)
+}
+
+// buildAndCheckOn: with reuse != nil the graph is built on that already used
+// Graph value after Init (a re-initialised graph must behave like a fresh one).
+func buildAndCheckOn[T comparable](c *ev.Case, reuse *algz.Graph[T], labels []T, n int, adj []uint32, want []uint32, calls int, kind string) bool {
 	rng := c.Rng
 	index := make(map[T]int, n)
 	for i, l := range labels {
@@ -205,7 +211,12 @@ func buildAndCheck[T comparable](c *ev.Case, labels []T, n int, adj []uint32, wa
 		return fmt.Sprintf("%s graph: %s (vertex i is labelled %v)", kind, fmtGraph(n, adj), labels)
 	}
 
-	var g algz.Graph[T]
+	var fresh algz.Graph[T]
+	g := &fresh
+	if reuse != nil {
+		g = reuse
+		kind += " (Graph value reused after Init)"
+	}
 	// operations: AddNode for isolated vertices (and a seeded half of the others), one
 	// AddUndirectedEdge per edge in a seeded orientation, a few duplicates; seeded order
 	type op struct{ a, b int } // b < 0: AddNode(a)
@@ -229,7 +240,7 @@ func buildAndCheck[T comparable](c *ev.Case, labels []T, n int, adj []uint32, wa
 	}
 	perm := rng.Perm(len(ops))
 	okBuild := c.Guard("Graph.build", func() {
-		if rng.Bool() {
+		if reuse != nil || rng.Bool() {
 			g.Init(rng.Intn(n + 2))
 		}
 		for _, p := range perm {
@@ -395,8 +406,22 @@ func cliqueCase(wide bool) func(c *ev.Case) {
 				}
 			}
 		}
-		if !buildAndCheck(c, il, n, adj, want, calls, kind) {
+		var shared algz.Graph[int]
+		if !buildAndCheckOn(c, &shared, il, n, adj, want, calls, kind) {
 			return
+		}
+		if n > 1 && rng.Chance(1, 2) {
+			// the same Graph value again, after Init: same vertex labels, same
+			// numbers of vertices and edges, but the edges go elsewhere
+			p := rng.Perm(n)
+			il2 := make([]int, n)
+			for i := range il2 {
+				il2[i] = il[p[i]]
+			}
+			if !buildAndCheckOn(c, &shared, il2, n, adj, want, 2, kind) {
+				return
+			}
+			c.Add("cl_graph_values_reused_after_init", 1)
 		}
 		sl := make([]string, n)
 		for i := range sl {
